@@ -361,6 +361,10 @@ impl VM {
             }
             PacketPropType::Eth => {
                 if let Some(val) = setval {
+                    // A layer property can only be assigned a layer object of its own kind
+                    if !matches!(val.as_ref(), Object::Eth(_)) {
+                        return Err(RTError::new("Invalid value for a layer property", line));
+                    }
                     pkt.inner.replace(Some(val.clone()));
                     val
                 } else {
